@@ -586,33 +586,160 @@ theorem bimgP_parse_absent (ext : Ext) (fcbSup : Bool) (pat : Pattern) (s : Seg)
     rw [if_neg hl, if_pos hpad]
 
 
-/-! ### the cases of one step of the walk -/
+
+/-! ### the world of an image that may carry trailing bytes behind the export (flash dump)
+
+`BimgPT … b0 b`: `b0` is the export, `b` the bytes that are parsed (`b0` itself, or `b0 ++ tail`).  The walk proof below
+uses the image only through: the bytes of the present entries (`atT`, `finT`), the fill bytes before the end of a present
+entry (`outT`), "a whole-rest parser (MBI / HAB / SB) sees nothing behind its payload" (`endG`) and "an absent floating
+last entry would start at or behind the end of the bytes" (`endD`). -/
+
+structure BimgPT (ext : Ext) (fcbSup : Bool) (d : Desc) (init : Nat) (L : List (Nat × Slot)) (b0 b : Bytes) : Prop where
+  base : BimgPW ext fcbSup d init L b0
+  atT : ∀ p ∈ L, p.2.present init = true → ∀ k, k < p.2.len → b[p.1 - init + k]? = p.2.bytes[k]?
+  finT : ∀ p ∈ L, p.2.present init = true → p.1 - init + p.2.len ≤ b.length
+  outT : ∀ k, (∃ u ∈ L, u.2.present init = true ∧ k < u.1 - init + u.2.len) →
+    (∀ p ∈ L, p.2.present init = true → k < p.1 - init ∨ p.1 - init + p.2.len ≤ k) →
+    b[k]? = some (if d.pattern = .ones then 0xFF else 0x00)
+  endG : ∀ p ∈ L, p.2.present init = true → (p.2.seg.parser = .greedy ∨ p.2.seg.parser = .sb) →
+    b.length ≤ p.1 - init + p.2.len
+  endD : ∀ (i : Nat) (t p : Nat × Slot), L[i]? = some t → L[i + 1]? = some p → p.2.seg.pos = none →
+    p.2.present init = false → b.length ≤ alignNat (t.1 - init + t.2.len) p.2.seg.align
 
 namespace BimgPW
 variable {ext : Ext} {fcbSup : Bool} {d : Desc} {init : Nat} {L : List (Nat × Slot)} {b : Bytes}
 
+/-- every present entry ends inside the export -/
+theorem end_le (w : BimgPW ext fcbSup d init L b) {p : Nat × Slot} (hp : p ∈ L) (hpr : p.2.present init = true) :
+    p.1 - init + p.2.len ≤ b.length := w.fin p hp hpr
+
+/-- the export ends where an absent floating last entry's predecessor ends -/
+theorem dyn_absent_len (w : BimgPW ext fcbSup d init L b) {i : Nat} {t p : Nat × Slot} (ht : L[i]? = some t)
+    (hp : L[i + 1]? = some p) (hd : p.2.seg.pos = none) (habs : p.2.present init = false) :
+    b.length ≤ t.1 - init + t.2.len ∧ L.length = i + 2 := by
+  obtain ⟨_, h2⟩ := w.succ_static ht hp
+  obtain ⟨_, hlen⟩ := h2 hd
+  refine ⟨w.len_le ht ?_, hlen⟩
+  intro j q hj hq
+  have := (List.getElem?_eq_some_iff.1 hj).1
+  by_cases hj' : j = i + 1
+  · subst hj'
+    rw [hp] at hj; cases hj
+    rw [habs] at hq; cases hq
+  · omega
+
+/-- the export itself -/
+theorem toPT (w : BimgPW ext fcbSup d init L b) : BimgPT ext fcbSup d init L b b := by
+  refine ⟨w, w.atB, w.fin, ?_, ?_, ?_⟩
+  · intro k ⟨u, hu, hupr, hk⟩ hfree
+    exact w.out k (by have := w.fin u hu hupr; omega) hfree
+  · intro p hp hpr hg
+    obtain ⟨n, hn⟩ := List.getElem?_of_mem hp
+    have hl := w.greedy_last hn hg
+    exact w.len_le hn (by
+      intro j q hj _
+      have := (List.getElem?_eq_some_iff.1 hj).1
+      omega)
+  · intro i t p ht hp hd habs
+    have hal := (bimgP_segOK_parts d.pattern p.2.seg (w.segOK (List.mem_of_getElem? hp))).1
+    have := (w.dyn_absent_len ht hp hd habs).1
+    have := bimg_le_alignNat (t.1 - init + t.2.len) p.2.seg.align hal
+    omega
+
+/-- the export followed by trailing bytes, when the last table entry is not a whole-rest parser and - if it is an absent
+    floating entry - the trailing bytes end at or before the aligned offset where it would be looked for -/
+theorem toPT_tail (w : BimgPW ext fcbSup d init L b) (tail : Bytes)
+    (hlast : ∀ p, L.getLast? = some p → p.2.seg.parser ≠ .greedy ∧ p.2.seg.parser ≠ .sb ∧
+      (p.2.present init = false → b.length + tail.length ≤ alignNat b.length p.2.seg.align)) :
+    BimgPT ext fcbSup d init L b (b ++ tail) := by
+  refine ⟨w, ?_, ?_, ?_, ?_, ?_⟩
+  · intro p hp hpr k hk
+    have := w.fin p hp hpr
+    rw [List.getElem?_append_left (by omega)]
+    exact w.atB p hp hpr k hk
+  · intro p hp hpr
+    have := w.fin p hp hpr
+    rw [List.length_append]
+    omega
+  · intro k ⟨u, hu, hupr, hk⟩ hfree
+    have := w.fin u hu hupr
+    rw [List.getElem?_append_left (by omega)]
+    exact w.out k (by omega) hfree
+  · intro p hp hpr hg
+    obtain ⟨n, hn⟩ := List.getElem?_of_mem hp
+    have hl := w.greedy_last hn hg
+    have hlastp : L.getLast? = some p := by
+      rw [List.getLast?_eq_getElem?, hl]
+      simpa using hn
+    obtain ⟨h1, h2, _⟩ := hlast p hlastp
+    rcases hg with hg | hg
+    · exact absurd hg h1
+    · exact absurd hg h2
+  · intro i t p ht hp hd habs
+    obtain ⟨hle, hlen⟩ := w.dyn_absent_len ht hp hd habs
+    have hlastp : L.getLast? = some p := by
+      rw [List.getLast?_eq_getElem?, hlen]
+      simpa using hp
+    obtain ⟨_, _, h3⟩ := hlast p hlastp
+    have h3 := h3 habs
+    have htmem := List.mem_of_getElem? ht
+    obtain ⟨hts, h2⟩ := w.succ_static ht hp
+    obtain ⟨htb, _⟩ := h2 hd
+    -- the predecessor (a static application entry) is present, so the export ends exactly at its end
+    have hti : init ≤ t.1 := by
+      by_cases h0 : init = 0
+      · omega
+      · obtain ⟨v, hv, hvp⟩ := w.init_entry h0
+        have hv1 := w.stat v hv init hvp
+        obtain ⟨j, hj⟩ := List.getElem?_of_mem hv
+        have hjl := (List.getElem?_eq_some_iff.1 hj).1
+        rcases Nat.lt_trichotomy j i with h | h | h
+        · have := w.chain j i v t h hj ht
+          omega
+        · subst h
+          rw [ht] at hj; cases hj
+          omega
+        · have : j = i + 1 := by omega
+          subst this
+          rw [hp] at hj; cases hj
+          rw [hd] at hvp; cases hvp
+    have htex : excluded init t.2.seg = false := by
+      cases hx : excluded init t.2.seg with
+      | false => rfl
+      | true =>
+        obtain ⟨x, hx1, hx2⟩ := (excluded_iff' init t.2.seg).1 hx
+        have := w.stat t htmem x hx1
+        omega
+    have htpr := w.sup t htmem htex (Or.inl ⟨htb, hts⟩)
+    have hfin := w.fin t htmem htpr
+    have e : b.length = t.1 - init + t.2.len := by omega
+    rw [List.length_append, ← e]
+    exact h3
+
+end BimgPW
+
+/-! ### the cases of one step of the walk -/
+
+namespace BimgPT
+variable {ext : Ext} {fcbSup : Bool} {d : Desc} {init : Nat} {L : List (Nat × Slot)} {b0 b : Bytes}
+
 /-- a present entry is found at its offset -/
-theorem tail_present (w : BimgPW ext fcbSup d init L b) {n : Nat} {p : Nat × Slot} (hn : L[n]? = some p)
+theorem tail_present (w : BimgPT ext fcbSup d init L b0 b) {n : Nat} {p : Nat × Slot} (hn : L[n]? = some p)
     (hpr : p.2.present init = true) (po ps : Nat) :
     bimgTail ext fcbSup b p.2.seg po ps (p.1 - init) =
       some (some (p.1 - init, p.2.bytes), p.1 - init, p.2.len) := by
   have hmem := List.mem_of_getElem? hn
   have hpos := ((bimg_present_iff init p.2).1 hpr).2
-  have hfin := w.fin p hmem hpr
+  have hfin := w.finT p hmem hpr
   have hbl := bimg_bytes_length p.2
   have hsplit := bimgP_drop_split b p.2.bytes (p.1 - init) (by
     intro k hk
     rw [hbl] at hk
-    exact w.atB p hmem hpr k hk)
+    exact w.atT p hmem hpr k hk)
   rw [hbl] at hsplit
-  have hparse := w.good p hmem hpr (b.drop (p.1 - init + p.2.len)) (by
+  have hparse := w.base.good p hmem hpr (b.drop (p.1 - init + p.2.len)) (by
     intro hg
-    have hl := w.greedy_last hn hg
-    have := w.len_le hn (by
-      intro j q hj _
-      have := (List.getElem?_eq_some_iff.1 hj).1
-      omega)
-    exact List.drop_eq_nil_of_le this)
+    exact List.drop_eq_nil_of_le (w.endG p hmem hpr hg))
   rw [← hsplit] at hparse
   have := bimgP_tail_present ext fcbSup b p.2.seg po ps (p.1 - init) p.2.bytes (by omega) hparse (by
     intro h
@@ -624,17 +751,17 @@ theorem tail_present (w : BimgPW ext fcbSup d init L b) {n : Nat} {p : Nat × Sl
 
 /-- a static boot-header entry that is not excluded and not present: an application entry follows, every later entry
     starts at or after the end of its window -/
-theorem absent_geo (w : BimgPW ext fcbSup d init L b) {n : Nat} {p : Nat × Slot} (hn : L[n]? = some p)
+theorem absent_geo (w : BimgPT ext fcbSup d init L b0 b) {n : Nat} {p : Nat × Slot} (hn : L[n]? = some p)
     (hex : excluded init p.2.seg = false) (hst : p.2.seg.pos.isSome = true) (hbh : p.2.seg.bootHeader = true)
     (hsz : 0 < p.2.seg.size) :
     (∀ j r, n < j → L[j]? = some r → p.1 + p.2.seg.size.toNat ≤ r.1) ∧
     p.1 - init + p.2.seg.size.toNat < b.length := by
   have hmem := List.mem_of_getElem? hn
-  have hge := w.ge p hmem hex
-  obtain ⟨m, u, hm, hub, hus⟩ := w.app_exists
+  have hge := w.base.ge p hmem hex
+  obtain ⟨m, u, hm, hub, hus⟩ := w.base.app_exists
   have hnm : n < m := by
     rcases Nat.lt_trichotomy m n with h | h | h
-    · have := w.headers h hm hn hub
+    · have := w.base.headers h hm hn hub
       rw [hbh] at this; cases this
     · subst h
       rw [hn] at hm; cases hm
@@ -642,21 +769,21 @@ theorem absent_geo (w : BimgPW ext fcbSup d init L b) {n : Nat} {p : Nat × Slot
     · exact h
   have hml : m < L.length := (List.getElem?_eq_some_iff.1 hm).1
   have hq : L[n + 1]? = some L[n + 1] := List.getElem?_eq_getElem (by omega)
-  obtain ⟨_, h2⟩ := w.succ_static hn hq
+  obtain ⟨_, h2⟩ := w.base.succ_static hn hq
   have hqs : (L[n + 1]'(by omega)).2.seg.pos.isSome = true := by
     cases hqp : (L[n + 1]'(by omega)).2.seg.pos with
     | none =>
       have := (h2 hqp).1
       rw [hbh] at this; cases this
     | some y => rfl
-  have hwin := w.window hn hq hst hqs hsz
+  have hwin := w.base.window hn hq hst hqs hsz
   have hlater : ∀ j r, n < j → L[j]? = some r → p.1 + p.2.seg.size.toNat ≤ r.1 := by
     intro j r hj hr
     by_cases hj' : j = n + 1
     · subst hj'
       rw [hq] at hr; cases hr
       exact hwin
-    · have := w.chain (n + 1) j _ r (by omega) hq hr
+    · have := w.base.chain (n + 1) j _ r (by omega) hq hr
       omega
   refine ⟨hlater, ?_⟩
   have hu1 := hlater m u hnm hm
@@ -666,34 +793,57 @@ theorem absent_geo (w : BimgPW ext fcbSup d init L b) {n : Nat} {p : Nat × Slot
     | false => rfl
     | true =>
       obtain ⟨x, hx1, hx2⟩ := (excluded_iff' init u.2.seg).1 hx
-      have := w.stat u humem x hx1
+      have := w.base.stat u humem x hx1
       omega
-  have hupr := w.sup u humem huex (Or.inl ⟨hub, hus⟩)
-  have := w.fin u humem hupr
+  have hupr := w.base.sup u humem huex (Or.inl ⟨hub, hus⟩)
+  have := w.finT u humem hupr
   have := ((bimg_present_iff init u.2).1 hupr).2
-  have := w.ge u humem huex
+  have := w.base.ge u humem huex
   omega
 
 /-- … so its window holds the fill byte only -/
-theorem absent_window (w : BimgPW ext fcbSup d init L b) {n : Nat} {p : Nat × Slot} (hn : L[n]? = some p)
+theorem absent_window (w : BimgPT ext fcbSup d init L b0 b) {n : Nat} {p : Nat × Slot} (hn : L[n]? = some p)
     (hex : excluded init p.2.seg = false) (hst : p.2.seg.pos.isSome = true) (hbh : p.2.seg.bootHeader = true)
     (hsz : 0 < p.2.seg.size) (habs : p.2.present init = false) :
     (b.drop (p.1 - init)).take p.2.seg.size.toNat =
       List.replicate p.2.seg.size.toNat (if d.pattern = .ones then 0xFF else 0x00) := by
   obtain ⟨hlater, hlen⟩ := w.absent_geo hn hex hst hbh hsz
   have hmem := List.mem_of_getElem? hn
-  have hge := w.ge p hmem hex
+  have hge := w.base.ge p hmem hex
   have := bimg_take_drop_of_get b (List.replicate p.2.seg.size.toNat (if d.pattern = .ones then (0xFF : UInt8) else 0x00))
     (p.1 - init) (by
       intro k hk
       rw [List.length_replicate] at hk
       rw [List.getElem?_replicate, if_pos hk]
-      apply w.out _ (by omega)
+      apply w.outT _ (by
+        obtain ⟨m, u, hm, hub, hus⟩ := w.base.app_exists
+        have humem := List.mem_of_getElem? hm
+        have hnm : n < m := by
+          rcases Nat.lt_trichotomy m n with h | h | h
+          · have := w.base.headers h hm hn hub
+            rw [hbh] at this; cases this
+          · subst h
+            rw [hn] at hm; cases hm
+            rw [hbh] at hub; cases hub
+          · exact h
+        have huex : excluded init u.2.seg = false := by
+          cases hx : excluded init u.2.seg with
+          | false => rfl
+          | true =>
+            obtain ⟨x, hx1, hx2⟩ := (excluded_iff' init u.2.seg).1 hx
+            have := w.base.stat u humem x hx1
+            have := hlater m u hnm hm
+            omega
+        have hupr := w.base.sup u humem huex (Or.inl ⟨hub, hus⟩)
+        have := hlater m u hnm hm
+        have := ((bimg_present_iff init u.2).1 hupr).2
+        have := w.base.ge u humem huex
+        exact ⟨u, humem, hupr, by omega⟩)
       intro r hr hrp
       obtain ⟨j, hj⟩ := List.getElem?_of_mem hr
-      have hrge := w.ge r hr ((bimg_present_iff init r.2).1 hrp).1
+      have hrge := w.base.ge r hr ((bimg_present_iff init r.2).1 hrp).1
       rcases Nat.lt_trichotomy j n with h | h | h
-      · have := w.chain j n r p h hj hn
+      · have := w.base.chain j n r p h hj hn
         right; omega
       · subst h
         rw [hn] at hj; cases hj
@@ -705,16 +855,16 @@ theorem absent_window (w : BimgPW ext fcbSup d init L b) {n : Nat} {p : Nat × S
 
 
 /-- a static entry that is not excluded and not supplied reads back as padding -/
-theorem tail_absent (w : BimgPW ext fcbSup d init L b) {n : Nat} {p : Nat × Slot} (hn : L[n]? = some p)
+theorem tail_absent (w : BimgPT ext fcbSup d init L b0 b) {n : Nat} {p : Nat × Slot} (hn : L[n]? = some p)
     (hex : excluded init p.2.seg = false) (hst : p.2.seg.pos.isSome = true) (habs : p.2.present init = false)
     (po ps : Nat) :
     bimgTail ext fcbSup b p.2.seg po ps (p.1 - init) = some (none, po, ps) := by
   have hmem := List.mem_of_getElem? hn
-  obtain ⟨_, k2, k3, k4, k5, k6, k7, k8, _⟩ := bimgP_segOK_parts d.pattern p.2.seg (w.segOK hmem)
+  obtain ⟨_, k2, k3, k4, k5, k6, k7, k8, _⟩ := bimgP_segOK_parts d.pattern p.2.seg (w.base.segOK hmem)
   have hnsup : ¬ (p.2.seg.bootHeader = false ∧ p.2.seg.pos.isSome = true ∨ p.2.seg.parser = .imageVersion ∨
       p.2.seg.parser = .imageVersionAp) := by
     intro hh
-    rw [w.sup p hmem hex hh] at habs
+    rw [w.base.sup p hmem hex hh] at habs
     cases habs
   have hbh : p.2.seg.bootHeader = true := by
     cases hb : p.2.seg.bootHeader with
@@ -739,20 +889,20 @@ theorem tail_absent (w : BimgPW ext fcbSup d init L b) {n : Nat} {p : Nat × Slo
   obtain ⟨_, hlen⟩ := w.absent_geo hn hex hst hbh hsz
   have hwin := w.absent_window hn hex hst hbh hsz habs
   have hparse := bimgP_parse_absent ext fcbSup d.pattern p.2.seg (b.drop (p.1 - init))
-    (bimg_descOK_parts d w.ok).2.2.1 k3 hsz (by rw [List.length_drop]; omega) hwin hpar (bimgP_fcbTag d w.ok)
+    (bimg_descOK_parts d w.base.ok).2.2.1 k3 hsz (by rw [List.length_drop]; omega) hwin hpar (bimgP_fcbTag d w.base.ok)
   exact bimgP_tail_absent ext fcbSup b p.2.seg po ps (p.1 - init) (by omega) hparse
 
-end BimgPW
+end BimgPT
 
 /-- what the walk remembers when it reaches entry `n`: offset and length of the entry before it, if that one is present -/
 def BimgInv (init : Nat) (L : List (Nat × Slot)) (n po ps : Nat) : Prop :=
   ∀ m t, n = m + 1 → L[m]? = some t → t.2.present init = true → po = t.1 - init ∧ ps = t.2.len
 
-namespace BimgPW
-variable {ext : Ext} {fcbSup : Bool} {d : Desc} {init : Nat} {L : List (Nat × Slot)} {b : Bytes}
+namespace BimgPT
+variable {ext : Ext} {fcbSup : Bool} {d : Desc} {init : Nat} {L : List (Nat × Slot)} {b0 b : Bytes}
 
 /-- the dynamic (last) entry -/
-theorem step_dyn (w : BimgPW ext fcbSup d init L b) {n : Nat} {p : Nat × Slot} (hn : L[n]? = some p)
+theorem step_dyn (w : BimgPT ext fcbSup d init L b0 b) {n : Nat} {p : Nat × Slot} (hn : L[n]? = some p)
     (hd : p.2.seg.pos = none) (first : Bool) (hf : first = true → n = 0) (po ps : Nat)
     (hinv : BimgInv init L n po ps) :
     stepSeg ext fcbSup init b p.2.seg first po ps =
@@ -761,7 +911,7 @@ theorem step_dyn (w : BimgPW ext fcbSup d init L b) {n : Nat} {p : Nat × Slot} 
   have hnl : n < L.length := (List.getElem?_eq_some_iff.1 hn).1
   cases n with
   | zero =>
-    have := w.head_static hn
+    have := w.base.head_static hn
     rw [hd] at this; cases this
   | succ m =>
     have hfirst : first = false := by
@@ -772,18 +922,18 @@ theorem step_dyn (w : BimgPW ext fcbSup d init L b) {n : Nat} {p : Nat × Slot} 
     have hm : L[m]? = some L[m] := List.getElem?_eq_getElem (by omega)
     generalize L[m]'(by omega) = t at hm
     have htmem := List.mem_of_getElem? hm
-    obtain ⟨hts, h2⟩ := w.succ_static hm hn
+    obtain ⟨hts, h2⟩ := w.base.succ_static hm hn
     obtain ⟨htb, hlen⟩ := h2 hd
     -- the predecessor is not excluded
     have hti : init ≤ t.1 := by
       by_cases h0 : init = 0
       · omega
-      · obtain ⟨v, hv, hvp⟩ := w.init_entry h0
-        have hv1 := w.stat v hv init hvp
+      · obtain ⟨v, hv, hvp⟩ := w.base.init_entry h0
+        have hv1 := w.base.stat v hv init hvp
         obtain ⟨j, hj⟩ := List.getElem?_of_mem hv
         have hjl := (List.getElem?_eq_some_iff.1 hj).1
         rcases Nat.lt_trichotomy j m with h | h | h
-        · have := w.chain j m v t h hj hm
+        · have := w.base.chain j m v t h hj hm
           omega
         · subst h
           rw [hm] at hj; cases hj
@@ -797,17 +947,17 @@ theorem step_dyn (w : BimgPW ext fcbSup d init L b) {n : Nat} {p : Nat × Slot} 
       | false => rfl
       | true =>
         obtain ⟨x, hx1, hx2⟩ := (excluded_iff' init t.2.seg).1 hx
-        have := w.stat t htmem x hx1
+        have := w.base.stat t htmem x hx1
         omega
-    have htpr := w.sup t htmem htex (Or.inl ⟨htb, hts⟩)
+    have htpr := w.base.sup t htmem htex (Or.inl ⟨htb, hts⟩)
     obtain ⟨hpo, hps⟩ := hinv m t rfl hm htpr
     subst hpo; subst hps
-    have hal := (bimgP_segOK_parts d.pattern p.2.seg (w.segOK hmem)).1
+    have hal := (bimgP_segOK_parts d.pattern p.2.seg (w.base.segOK hmem)).1
     have hstart : alignNat (t.1 - init + t.2.len) p.2.seg.align = p.1 - init := by
       have e : t.1 - init + t.2.len = t.1 + t.2.len - init := by omega
-      rw [e, bimgP_alignNat_sub _ _ _ hal (w.align_init hmem hd) (by omega), w.dyn m t p hm hn hd]
+      rw [e, bimgP_alignNat_sub _ _ _ hal (w.base.align_init hmem hd) (by omega), w.base.dyn m t p hm hn hd]
     by_cases hpr : p.2.present init = true
-    · have hfin := w.fin p hmem hpr
+    · have hfin := w.finT p hmem hpr
       have hpos := ((bimg_present_iff init p.2).1 hpr).2
       have hbl := bimg_bytes_length p.2
       rw [bimgP_step_dyn ext fcbSup init b p.2.seg _ _ hd (by rw [hstart]; omega), hstart, w.tail_present hn hpr]
@@ -816,23 +966,15 @@ theorem step_dyn (w : BimgPW ext fcbSup d init L b) {n : Nat} {p : Nat × Slot} 
         rw [hstart, bimgP_drop_split b p.2.bytes (p.1 - init) (by
           intro k hk
           rw [hbl] at hk
-          exact w.atB p hmem hpr k hk)]
-        exact w.find p hmem hpr hfe _
+          exact w.atT p hmem hpr k hk)]
+        exact w.base.find p hmem hpr hfe _
     · have hpr' : p.2.present init = false := by simpa using hpr
-      have hle := w.len_le hm (by
-        intro j q hj hq
-        have := (List.getElem?_eq_some_iff.1 hj).1
-        by_cases hj' : j = m + 1
-        · subst hj'
-          rw [hn] at hj; cases hj
-          rw [hpr'] at hq; cases hq
-        · omega)
-      have := bimg_le_alignNat (t.1 - init + t.2.len) p.2.seg.align hal
-      rw [bimgP_step_skip ext fcbSup init b p.2.seg _ _ hd (by omega)]
+      have hle := w.endD m t p hm hn hd hpr'
+      rw [bimgP_step_skip ext fcbSup init b p.2.seg _ _ hd hle]
       simp [bimgExp, hpr']
 
 /-- one step of the walk over the layout -/
-theorem step (w : BimgPW ext fcbSup d init L b) {n : Nat} {p : Nat × Slot} (hn : L[n]? = some p)
+theorem step (w : BimgPT ext fcbSup d init L b0 b) {n : Nat} {p : Nat × Slot} (hn : L[n]? = some p)
     (first : Bool) (hf : first = true → n = 0) (po ps : Nat) (hinv : BimgInv init L n po ps) :
     ∃ po' ps', stepSeg ext fcbSup init b p.2.seg first po ps = some (bimgExp init p, po', ps') ∧
       BimgInv init L (n + 1) po' ps' := by
@@ -857,7 +999,7 @@ theorem step (w : BimgPW ext fcbSup d init L b) {n : Nat} {p : Nat × Slot} (hn 
       rw [w.step_dyn hn hpos first hf po ps hinv]
       simp [hpr]
     | some x =>
-      have hx := w.stat p hmem x hpos
+      have hx := w.base.stat p hmem x hpos
       rw [bimgP_step_static ext fcbSup init b p.2.seg first po ps x hex hpos, ← hx, w.tail_present hn hpr]
       simp [bimgExp, hpr]
   · have habs : p.2.present init = false := by simpa using hpr
@@ -872,11 +1014,11 @@ theorem step (w : BimgPW ext fcbSup d init L b) {n : Nat} {p : Nat × Slot} (hn 
         rw [w.step_dyn hn hpos first hf po ps hinv, hexp]
         simp [habs]
       | some x =>
-        have hx := w.stat p hmem x hpos
+        have hx := w.base.stat p hmem x hpos
         rw [bimgP_step_static ext fcbSup init b p.2.seg first po ps x hex' hpos, ← hx]
         exact w.tail_absent hn hex' (by rw [hpos]; rfl) habs po ps
 
-theorem walkGo (w : BimgPW ext fcbSup d init L b) (suf : List (Nat × Slot)) (n : Nat) (hsuf : L.drop n = suf)
+theorem walkGo (w : BimgPT ext fcbSup d init L b0 b) (suf : List (Nat × Slot)) (n : Nat) (hsuf : L.drop n = suf)
     (first : Bool) (hf : first = true → n = 0) (po ps : Nat) (hinv : BimgInv init L n po ps) :
     Bimg.walkGo ext fcbSup init b (suf.map (·.2.seg)) first po ps = .ok (suf.map (bimgExp init)) := by
   induction suf generalizing n first po ps with
@@ -896,7 +1038,7 @@ theorem walkGo (w : BimgPW ext fcbSup d init L b) (suf : List (Nat × Slot)) (n 
     simp only []
     rw [ih (n + 1) hr false (by intro h; cases h) po' ps' hinv']
 
-end BimgPW
+end BimgPT
 
 theorem parse_export' (ext : Ext) (fcbSup : Bool) (d : Desc) (init : Nat) (raws : List (Option Bytes))
     (h : Ctx d init raws) (hsup : Supplied init (mkSlots d.segs raws)) (hdel : Delimit ext fcbSup init (mkSlots d.segs raws))
@@ -906,7 +1048,28 @@ theorem parse_export' (ext : Ext) (fcbSup : Bool) (d : Desc) (init : Nat) (raws 
   have g := bimg_geo d init raws h
   rw [bimgP_expectedFound g]
   unfold walk
-  have := w.walkGo _ 0 rfl true (fun _ => rfl) 0 0 (by intro m t hm; omega)
+  have := w.toPT.walkGo _ 0 rfl true (fun _ => rfl) 0 0 (by intro m t hm; omega)
+  rw [List.drop_zero, ← w.segs] at this
+  exact this
+
+/-- the same for the export followed by trailing bytes (a flash dump), see `BimgPW.toPT_tail` -/
+theorem parse_export_tail' (ext : Ext) (fcbSup : Bool) (d : Desc) (init : Nat) (raws : List (Option Bytes))
+    (h : Ctx d init raws) (hsup : Supplied init (mkSlots d.segs raws)) (hdel : Delimit ext fcbSup init (mkSlots d.segs raws))
+    (b : Bytes) (hb : exportImg d init raws = .ok b) (tail : Bytes)
+    (hlast : ∀ s, (mkSlots d.segs raws).getLast? = some s → s.seg.parser ≠ .greedy ∧ s.seg.parser ≠ .sb ∧
+      (s.present init = false → b.length + tail.length ≤ alignNat b.length s.seg.align)) :
+    walk ext fcbSup init d.segs (b ++ tail) = .ok (expectedFound init (mkSlots d.segs raws)) := by
+  have w := bimgP_world ext fcbSup d init raws h hsup hdel b hb
+  have g := bimg_geo d init raws h
+  rw [bimgP_expectedFound g]
+  unfold walk
+  have wt := w.toPT_tail tail (by
+    intro p hp
+    apply hlast p.2
+    have := congrArg (Option.map (·.2)) hp
+    rw [← List.getLast?_map, bimgLayout_snd] at this
+    exact this)
+  have := wt.walkGo _ 0 rfl true (fun _ => rfl) 0 0 (by intro m t hm; omega)
   rw [List.drop_zero, ← w.segs] at this
   exact this
 
@@ -1030,6 +1193,76 @@ theorem parseAll_later' (ext : Ext) (fcbSup : Bool) (d : Desc) (init : Nat) (raw
   rw [h0, hc]
   simp only []
   rw [bimgP_firstSome _ pre post _ _ hpre this]
+
+
+/-- one trial on the export followed by trailing bytes -/
+theorem bimgP_trial_tail (ext : Ext) (fcbSup : Bool) (d : Desc) (init : Nat) (raws : List (Option Bytes))
+    (h : Ctx d init raws) (hsup : Supplied init (mkSlots d.segs raws)) (hdel : Delimit ext fcbSup init (mkSlots d.segs raws))
+    (b : Bytes) (hb : exportImg d init raws = .ok b) (tail : Bytes)
+    (hlast : ∀ s, (mkSlots d.segs raws).getLast? = some s → s.seg.parser ≠ .greedy ∧ s.seg.parser ≠ .sb ∧
+      (s.present init = false → b.length + tail.length ≤ alignNat b.length s.seg.align)) :
+    trial ext fcbSup d.segs (b ++ tail) (init : Int) = some (init, expectedFound init (mkSlots d.segs raws)) := by
+  have w := bimgP_world ext fcbSup d init raws h hsup hdel b hb
+  have g := bimg_geo d init raws h
+  unfold trial
+  rw [bimgP_setInit d.segs init h.adm]
+  simp only []
+  rw [parse_export_tail' ext fcbSup d init raws h hsup hdel b hb tail hlast]
+  simp only []
+  have happ : hasApp d.segs (expectedFound init (mkSlots d.segs raws)) = true := by
+    rw [bimgP_expectedFound g]
+    have := bimgP_hasApp init _ w.app_found
+    rw [← w.segs] at this
+    exact this
+  rw [if_pos happ]
+
+theorem parseAll_full_tail' (ext : Ext) (fcbSup : Bool) (d : Desc) (raws : List (Option Bytes))
+    (h : Ctx d 0 raws) (hsup : Supplied 0 (mkSlots d.segs raws)) (hdel : Delimit ext fcbSup 0 (mkSlots d.segs raws))
+    (b : Bytes) (hb : exportImg d 0 raws = .ok b) (tail : Bytes)
+    (hlast : ∀ s, (mkSlots d.segs raws).getLast? = some s → s.seg.parser ≠ .greedy ∧ s.seg.parser ≠ .sb ∧
+      (s.present 0 = false → b.length + tail.length ≤ alignNat b.length s.seg.align)) :
+    parseAll ext fcbSup d.segs (b ++ tail) = .ok (0, expectedFound 0 (mkSlots d.segs raws)) := by
+  have := bimgP_trial_tail ext fcbSup d 0 raws h hsup hdel b hb tail hlast
+  unfold parseAll
+  simp only [Int.natCast_zero] at this
+  rw [this]
+
+theorem parseAll_later_tail' (ext : Ext) (fcbSup : Bool) (d : Desc) (init : Nat) (raws : List (Option Bytes))
+    (h : Ctx d init raws) (hsup : Supplied init (mkSlots d.segs raws)) (hdel : Delimit ext fcbSup init (mkSlots d.segs raws))
+    (b : Bytes) (hb : exportImg d init raws = .ok b) (tail : Bytes)
+    (hlast : ∀ s, (mkSlots d.segs raws).getLast? = some s → s.seg.parser ≠ .greedy ∧ s.seg.parser ≠ .sb ∧
+      (s.present init = false → b.length + tail.length ≤ alignNat b.length s.seg.align))
+    (pre post : List Int) (hc : initCandidates d.segs = pre ++ (init : Int) :: post)
+    (h0 : trial ext fcbSup d.segs (b ++ tail) 0 = none) (hpre : ∀ c ∈ pre, trial ext fcbSup d.segs (b ++ tail) c = none) :
+    parseAll ext fcbSup d.segs (b ++ tail) = .ok (init, expectedFound init (mkSlots d.segs raws)) := by
+  have := bimgP_trial_tail ext fcbSup d init raws h hsup hdel b hb tail hlast
+  unfold parseAll
+  rw [h0, hc]
+  simp only []
+  rw [bimgP_firstSome _ pre post _ _ hpre this]
+
+/-- whole-rest parsers (MBI, HAB, SB2.1, SB3.1): trailing bytes behind the container become part of the segment - the
+    parser is handed container ++ tail and, when it accepts, the raw block is all of it -/
+theorem greedy_takes_tail' (ext : Ext) (fcbSup : Bool) (s : Seg) (c tail : Bytes)
+    (hp : s.parser = .greedy ∨ s.parser = .sb) (hsz : s.size < 0) (hne : c ≠ []) :
+    parseSeg ext fcbSup s (c ++ tail) = (match ext.app s.kind (c ++ tail) with
+      | some _ => .present (c ++ tail)
+      | none => .err) := by
+  have hne' : (c ++ tail).isEmpty = false := by cases c <;> simp_all
+  unfold parseSeg
+  rcases hp with hp | hp
+  · rw [hp]
+    simp only [hne', Bool.false_eq_true, if_false]
+    cases ext.app s.kind (c ++ tail) <;> rfl
+  · rw [hp]
+    simp only []
+    cases ext.app s.kind (c ++ tail) with
+    | none => rfl
+    | some n =>
+      simp only []
+      unfold parseRaw isPadding
+      have h1 : ¬ (0 < s.size) := by omega
+      simp [h1]
 
 
 end SpsdkVerif.Bimg
